@@ -130,6 +130,9 @@ pub enum CallSpec {
     CsolveSeq {
         spec: SplineSpec,
         calls: Vec<SolveSpec>,
+        /// length of a coefficient vector given to `PPSpline::new` (which does not check it)
+        #[serde(default)]
+        preset_c: Option<usize>,
     },
 }
 
@@ -875,7 +878,24 @@ fn exec_call(c: &CallSpec, obs: &mut Obs) -> Result<(), Fail> {
         },
         CallSpec::FxPair(a, b) => match guard(|| FXPair::try_new(a, b)) {
             Err(p) => return Err(panic_to("FXPair::try_new", p, format!("{:?}/{:?}", a, b))),
-            Ok(Ok(_)) => obs.count("call.FXPair::try_new.ok"),
+            Ok(Ok(pair)) => {
+                // the constructor's documented rule: two distinct currencies
+                let v = serde_json::to_value(pair).unwrap_or(serde_json::Value::Null);
+                let (l, r) = (
+                    v[0]["name"].as_str().unwrap_or("").to_string(),
+                    v[1]["name"].as_str().unwrap_or("?").to_string(),
+                );
+                if l == r {
+                    return Err(shape_to(
+                        "FXPair::try_new",
+                        format!(
+                            "FXPair::try_new({:?}, {:?}) returned a pair of the currency {:?} with itself",
+                            a, b, l
+                        ),
+                    ));
+                }
+                obs.count("call.FXPair::try_new.ok")
+            }
             Ok(Err(_)) => obs.count("call.FXPair::try_new.err"),
         },
         CallSpec::FxRate(a, b) => {
@@ -991,7 +1011,11 @@ fn exec_call(c: &CallSpec, obs: &mut Obs) -> Result<(), Fail> {
                 obs.count(&format!("call.{}", target));
             }
         }
-        CallSpec::CsolveSeq { spec, calls } => {
+        CallSpec::CsolveSeq {
+            spec,
+            calls,
+            preset_c,
+        } => {
             let t: Vec<f64> = spec.t.iter().map(|x| x.get()).collect();
             if t.len() < 2 || spec.k < 1 || t.len() < spec.k {
                 return Err(Fail::Harness(HarnessError("bad spline spec".into())));
@@ -999,7 +1023,12 @@ fn exec_call(c: &CallSpec, obs: &mut Obs) -> Result<(), Fail> {
             let target = "PPSpline::csolve";
             macro_rules! seq {
                 ($T:ty, $conv:expr, $shape:expr) => {{
-                    let mut p: PPSpline<$T> = PPSpline::new(spec.k, t.clone(), None);
+                    let preset: Option<Vec<$T>> = preset_c.map(|m| {
+                        (0..m)
+                            .map(|i| ($conv)(&Num::F(Fx::new(0.25 + i as f64))))
+                            .collect()
+                    });
+                    let mut p: PPSpline<$T> = PPSpline::new(spec.k, t.clone(), preset);
                     for (ci, c) in calls.iter().enumerate() {
                         let tau = fl(&c.tau);
                         let ys: Vec<$T> = c.y.iter().map($conv).collect();
@@ -1024,7 +1053,9 @@ fn exec_call(c: &CallSpec, obs: &mut Obs) -> Result<(), Fail> {
                                 ))
                             }
                             Ok(ok) => {
-                                shape_spline(&p, $shape).map_err(|w| shape_to(target, w))?;
+                                if ok || preset_c.is_none() {
+                                    shape_spline(&p, $shape).map_err(|w| shape_to(target, w))?;
+                                }
                                 obs.count(if ok {
                                     "call.PPSpline::csolve(seq).ok"
                                 } else {
@@ -1270,7 +1301,8 @@ fn emit_doc_faults(seed: u64, tier: Tier, unit: u64, sink: &mut dyn FnMut(Plan) 
 const ODD_CCY: &[&str] = &[
     "", "u", "us", "usd", "USD", "UsD", "usdx", "usdxy", "é", "éa", "ééé", "日本", "u d", "   ",
     "\u{1F600}", "12a", "a\0b", "ǅa", "ß1", "İi", "İ", "\u{212A}", "\u{212B}", "\u{2126}", "\u{1E9E}",
-    "\u{212A}sd", "u\u{212A}", "ΑΒ", "ΣΣ", "ǅ", "ᾈ", "ﬁa",
+    "\u{212A}sd", "u\u{212A}", "ΑΒ", "ΣΣ", "ǅ", "ᾈ", "ﬁa", "Éa", "éa", "ñX", "Ñx", "Ḁ", "ḁ", "aÉ",
+    "aé", "Ωω", "ωΩ",
 ];
 
 fn all_i8() -> Vec<i32> {
@@ -1420,8 +1452,10 @@ fn emit_calls(seed: u64, tier: Tier, unit: u64, sink: &mut dyn FnMut(Plan) -> bo
             // currency, pair and named-calendar strings
             for a in ODD_CCY {
                 sink(Plan::Call(CallSpec::Ccy(a.to_string())));
-                for b in ODD_CCY.iter().take(8) {
+                for b in ODD_CCY.iter() {
                     sink(Plan::Call(CallSpec::FxPair(a.to_string(), b.to_string())));
+                }
+                for b in ODD_CCY.iter().take(8) {
                     sink(Plan::Call(CallSpec::FxRate(b.to_string(), a.to_string())));
                 }
             }
@@ -1597,15 +1631,27 @@ fn emit_calls(seed: u64, tier: Tier, unit: u64, sink: &mut dyn FnMut(Plan) -> bo
                 sink(Plan::Call(CallSpec::CsolveSeq {
                     spec: spec.clone(),
                     calls,
+                    preset_c: None,
                 }));
+                // a spline born with a coefficient vector (right or wrong length), then solved
+                let nn = tt.len() - spec.k;
+                for m in [nn, nn + 2, 1, 0] {
+                    sink(Plan::Call(CallSpec::CsolveSeq {
+                        spec: spec.clone(),
+                        calls: vec![good.clone(), bad.clone(), good.clone()],
+                        preset_c: Some(m),
+                    }));
+                }
                 // the two orders of (long least-squares, exact prefix) explicitly
                 sink(Plan::Call(CallSpec::CsolveSeq {
                     spec: spec.clone(),
                     calls: vec![long.clone(), good.clone()],
+                    preset_c: None,
                 }));
                 sink(Plan::Call(CallSpec::CsolveSeq {
                     spec: spec.clone(),
                     calls: vec![good.clone(), long.clone(), good.clone()],
+                    preset_c: None,
                 }));
             }
             for _ in 0..30 {
@@ -1801,7 +1847,11 @@ pub fn shrink(plan: &Plan) -> Vec<Plan> {
                         }
                     }
                 }
-                CallSpec::CsolveSeq { spec, calls } => {
+                CallSpec::CsolveSeq {
+                    spec,
+                    calls,
+                    preset_c,
+                } => {
                     for i in 0..calls.len() {
                         if calls.len() > 1 {
                             let mut c2 = calls.clone();
@@ -1809,6 +1859,7 @@ pub fn shrink(plan: &Plan) -> Vec<Plan> {
                             cs.push(CallSpec::CsolveSeq {
                                 spec: spec.clone(),
                                 calls: c2,
+                                preset_c: *preset_c,
                             });
                         }
                     }
@@ -1818,6 +1869,14 @@ pub fn shrink(plan: &Plan) -> Vec<Plan> {
                         cs.push(CallSpec::CsolveSeq {
                             spec: s2,
                             calls: calls.clone(),
+                            preset_c: *preset_c,
+                        });
+                    }
+                    if preset_c.is_some() {
+                        cs.push(CallSpec::CsolveSeq {
+                            spec: spec.clone(),
+                            calls: calls.clone(),
+                            preset_c: None,
                         });
                     }
                 }
